@@ -124,6 +124,8 @@ def run(ctx):
   ctx.assume('quick tier: the small-difference check is constructed with max_diff = 2^12; the thorough tier uses the default singletons')
   ctx.assume('entry order inside test_results is not normative; names are compared as sets')
   model_check(ctx)
+  from pv import tim
+  tim.run(ctx, 150 if ctx.quick else 3000)       # stateful trace validation of util.py itself
   replay_and_validate(ctx, plan(ctx), 'C16')
 
 
